@@ -38,6 +38,7 @@ pub mod ls;
 pub mod idx;
 pub mod store;
 pub mod tm;
+pub mod wm;
 
 pub fn registry() -> Vec<(&'static str, fn())> {
     let mut v = Vec::new();
@@ -50,5 +51,6 @@ pub fn registry() -> Vec<(&'static str, fn())> {
     v.extend_from_slice(idx::ALL);
     v.extend_from_slice(store::ALL);
     v.extend_from_slice(tm::ALL);
+    v.extend_from_slice(wm::ALL);
     v
 }
